@@ -1091,7 +1091,7 @@ func rlFileCase(r *rng, c int, root string, emit func(interface{}), crash bool) 
 	b := mutateRlSpec(r, a)
 	oldText, newText := a.text(), b.text()
 	variant := pick(r, []string{"app.raw", "mcp.write_only", "mcp.reload_ok", "mcp.reload_fail", "mcp.invalid", "mgmt.upsert", "mgmt.upsert_reload_fail", "mgmt.delete",
-		"mgmt.delete_validate_fail", "mgmt.move", "mgmt.move_validate_fail", "app.raw_new", "app.rename_fails", "mcp.rename_fails"})
+		"mgmt.delete_validate_fail", "mgmt.move", "mgmt.move_validate_fail", "app.raw_new", "app.rename_fails", "mcp.rename_fails", "mgmt.upsert_pending_restart"})
 	base := map[string]interface{}{"k": "file", "case": c, "variant": variant, "old": oldText}
 	if variant == "app.raw_new" {
 		base["old"] = nil
@@ -1185,7 +1185,7 @@ func rlFileCase(r *rng, c int, root string, emit func(interface{}), crash bool) 
 		default:
 			outcome = "rejected"
 		}
-	case "mgmt.upsert", "mgmt.upsert_reload_fail", "mgmt.delete", "mgmt.delete_validate_fail", "mgmt.move", "mgmt.move_validate_fail":
+	case "mgmt.upsert", "mgmt.upsert_reload_fail", "mgmt.delete", "mgmt.delete_validate_fail", "mgmt.move", "mgmt.move_validate_fail", "mgmt.upsert_pending_restart":
 		secretPath := filepath.Join(root, fmt.Sprintf("ftok%d", c))
 		if variant == "mgmt.upsert_reload_fail" {
 			_ = os.WriteFile(secretPath, []byte(a.PullTok), 0o600)
@@ -1193,7 +1193,7 @@ func rlFileCase(r *rng, c int, root string, emit func(interface{}), crash bool) 
 			oldText = a.text()
 			base["old"] = oldText
 		}
-		labelled := variant != "mgmt.upsert" && variant != "mgmt.upsert_reload_fail"
+		labelled := variant != "mgmt.upsert" && variant != "mgmt.upsert_reload_fail" && variant != "mgmt.upsert_pending_restart"
 		if labelled { // the endpoint app1/ep1 already exists on the first route
 			oldText = strings.Replace(oldText, a.Routes[0].Path+" {\n", a.Routes[0].Path+" {\n  application app1\n  endpoint_name ep1\n", 1)
 			base["old"] = oldText
@@ -1207,6 +1207,24 @@ func rlFileCase(r *rng, c int, root string, emit func(interface{}), crash bool) 
 		}
 		if variant == "mgmt.upsert_reload_fail" {
 			_ = os.Remove(secretPath)
+		}
+		if variant == "mgmt.upsert_pending_restart" {
+			// an operator has edited the file with a setting that needs a restart and has not restarted yet (a reload of it is
+			// refused): the file is ahead of the running configuration when the management request arrives
+			pending := a
+			pending.PullExtra += "  max_batch 7\n"
+			if _, err := compileText(pending.text()); err != nil || rt.Reload(cfgPath) == false {
+				verifhook.Reset()
+				return
+			}
+			oldText = pending.text()
+			_ = os.WriteFile(cfgPath, []byte(oldText), 0o640)
+			base["old"] = oldText
+			if rt.Reload(cfgPath) {
+				verifhook.Reset()
+				emit(map[string]interface{}{"k": "cfgerror", "stage": "mgmt-pending", "err": "the pending edit was not refused", "text": oldText})
+				return
+			}
 		}
 		// what the running process answers for the managed endpoint: an endpoint-scoped publish (status, code, route reached)
 		live := func() string {
